@@ -349,6 +349,10 @@ class CallMixin:
             s1.assume(en(ns1, ret))
         for h in c.post_hints:
             s1.assume(h(ns1, ret))
+        if c.ensures and self.feasible(pre) and not self.feasible(s1):
+            # the assumed postcondition contradicts the state at this call site: a contract whose ensures cannot be
+            # satisfied here would silently cut the path and make everything after it vacuous
+            raise Refuse(f"postcondition of {key} is unsatisfiable at its call site in {self.cur_key} (line {getattr(node, 'lineno', '?')}): contract error")
         if c.ghost_at_call:
             c.ghost_at_call(self, s1, ns1, ret)      # ghost code attached to the call event (logs), not an assumption about the callee
         outs.insert(0, (s1, ret))
